@@ -79,28 +79,7 @@ pub fn known_trigger(w: &World, rec: &StepRecord) -> Option<String> {
     if rec.rollback && is_refusal(&rec.class) {
         return Some("KF-C06-1".into());
     }
-    // KF-C06-2: an admin that holds a pending commit of its own is handed a member's leave
-    // proposal: the proposal is queued first, the auto-commit then fails, the event is answered
-    // Unprocessable although the queue changed
-    if let Op::Deliver { ev } = &rec.step.op {
-        if let Some(pe) = w.ev(*ev) {
-            let node = rec.step.node;
-            let had_pending = w.prev_view.groups.get(&w.gid_hex(pe.g)).and_then(|g| g.mls.as_ref()).map(|m| m.pending_commit).unwrap_or(false);
-            let is_proposal = pe.kind == EvKind::Proposal || pe.desc.starts_with("crafted proposal");
-            let _ = had_pending;
-            if is_proposal && w.is_admin(node, pe.g) {
-                let before = w.prev_view.groups.get(&w.gid_hex(pe.g)).map(crate::checks::c07::restricted_group);
-                let after = w.views[node].groups.get(&w.gid_hex(pe.g)).map(crate::checks::c07::restricted_group);
-                if let (Some(mut b), Some(mut a)) = (before, after) {
-                    b["pending_proposals"] = serde_json::Value::Null;
-                    a["pending_proposals"] = serde_json::Value::Null;
-                    if a == b {
-                        return Some("KF-C06-2".into());
-                    }
-                }
-            }
-        }
-    }
+    let _ = w;
     None
 }
 
